@@ -80,7 +80,7 @@ def on_ids(p, r, exc, acc):
 
 
 # ------------------------------------------------------------------ construction / rendering paths (concrete replay of solver-chosen cases)
-PATHS = ["string", "file", "module_directory", "reloaded", "render_unicode", "render_context", "get_def", "module_template"]
+PATHS = ["string", "file", "module_directory", "reloaded", "render_unicode", "render_context", "get_def", "module_template", "mako_render", "moved_source"]
 CORPUS = ["plain", "inherits", "namespaces", "nonascii", "latin1"]
 
 
@@ -234,7 +234,7 @@ def run(check, tier):
                  "template sets (overlapping import= namespaces, many names in nested scopes, inheritance with imports) are compiled and "
                  "rendered in-process under each order and must give the text of the interpreter's own order; counterexamples are replayed "
                  "in fresh interpreters under 24 hash seeds")
-    check.not_claimed("equivalence of the paths for arbitrary templates", "set orders other than the three modelled", "mako-render command line")
+    check.not_claimed("equivalence of the paths for arbitrary templates", "set orders other than the three modelled")
     jobs = []
     N = {"quick": 2, "thorough": 3}[tier]
     for a in range(1, N + 1):
